@@ -292,8 +292,9 @@ def gen_wheel(rng, enc440) -> Tuple[str, str]:
 
 
 def gen_sdist(rng, enc440) -> Tuple[str, str]:
-    name = rng.choice(NAMES_S) if rng.random() < 0.8 else rand_str(rng, "abV019_.-", 1, 8)
-    ver = gen_version_str(rng, enc440)
+    r0 = rng.random()
+    name = rng.choice(NAMES_S) if r0 < 0.6 else gen_sdist_project(rng) if r0 < 0.85 else rand_str(rng, "abV019_.-", 1, 8)
+    ver = gen_version_str(rng, enc440) if rng.random() < 0.85 else rng.choice(["2024", "1", "7", "0.3.post1", "2024.1", "3"])
     ext = rng.choice(EXTS_S)
     tag = "sdist"
     mid = ""
@@ -1116,6 +1117,36 @@ def name_part_looks_like_version(name: str) -> bool:
     return False
 
 
+PLAIN_PARTS = ["foo", "bar", "tool", "lib", "google", "tools", "emu", "py", "zope.interface", "my_pkg", "backports", "thing", "linux", "a"]
+DIGIT_PARTS = ["oauth2", "x86", "py3", "utf8", "s3", "k8s", "md5", "h5py", "base64", "ipv6", "x86_64", "e2e", "Py3K", "b2.sdk"]
+
+
+def gen_sdist_project(rng) -> str:
+    """dashed project names of 1-4 parts; inner and last parts often carry a digit WITHOUT starting like a version
+    (oauth2, x86, py3 ...): the positions the version-start search of parse_source_filename looks at"""
+    k = rng.choice([1, 2, 2, 3, 3, 4])
+    parts = []
+    for i in range(k):
+        digit = rng.random() < (0.15 if i == 0 else 0.45)
+        parts.append(rng.choice(DIGIT_PARTS if digit else PLAIN_PARTS))
+    return "-".join(parts)
+
+
+def split_sdist_name(fn: str) -> Optional[Tuple[str, str, str]]:
+    """(project, version, ext) of a file name of the shape <parts>-<canonical version><ext>, else None"""
+    from packaging.version import Version, InvalidVersion
+    for ext in (".tar.gz", ".tar.bz2", ".zip", ".tgz"):
+        if fn.endswith(ext) and "/" not in fn:
+            stem = fn[: -len(ext)]
+            name, _, ver = stem.rpartition("-")
+            try:
+                if name and str(Version(ver)) == ver and "-" not in ver and "_" not in ver:
+                    return name, ver, ext
+            except InvalidVersion:
+                pass
+    return None
+
+
 def oracle_sdist(name: str, ver: str, ext: str) -> Optional[str]:
     """canonical versions (local labels included) and dashed/dotted names"""
     m = imp()
@@ -1262,10 +1293,9 @@ def oracle_page(html: str, triple) -> Optional[str]:
                     continue
             else:
                 import re
-                lenient = re.compile(r"\s*(~=|===|==|!=|<=|>=|<|>|)\s*v?\d[0-9a-z.!+_-]*(\.\*)?\s*")
-                # some clause may be understood (by PEP 440 or by the code's lenient reading): either answer
-                # is accepted; a declaration with no readable clause at all must hide nothing
-                must = not any(lenient.fullmatch(p_) for p_ in parts)
+                # a clause that mentions a number may be understood (by PEP 440 or by the code's lenient reading, e.g.
+                # "3.6.*.*" or "3.5>=3.5"): either answer is accepted; a declaration without any must hide nothing
+                must = not any(re.search(r"[0-9]", p_) for p_ in parts)
         import posixpath
         want_max.append((posixpath.basename(text), hrefs[-1]))
         if must and clearly_well_formed(text):
@@ -1355,8 +1385,9 @@ def run_oracles(ctx: Ctx, n: int) -> Optional[Dict[str, Any]]:
                 return {"kind": "wheel", "input": args, "why": why}
         elif r < 0.5:
             ver = str(Version(enc440.gen_version(rng, allow_local=True))) if rng.random() < 0.85 else rng.choice(["1.0+abc.linux", "1.0+a.zip", "2.1+windows.1", "1.0+x.tgz.1", "1!1.0+macos"])
-            args = [rng.choice(["foo", "foo-bar", "zope.interface", "my_pkg", "backports-thing", "pytest-ui", "a-b-c-d", "linux-tools"]), ver,
-                    rng.choice([".tar.gz", ".zip", ".tgz", ".tar.bz2"])]
+            if rng.random() < 0.3:
+                ver = rng.choice(["2024", "1", "7", "0.3.post1", "1.0", "2.1.0", "3", "2024.1"])      # dotless and dotted
+            args = [gen_sdist_project(rng), ver, rng.choice([".tar.gz", ".zip", ".tgz", ".tar.bz2"])]
             why = oracle_sdist(*args)
             if why:
                 return {"kind": "sdist", "input": args, "why": why}
@@ -1427,6 +1458,13 @@ def search(ctx: Ctx) -> Optional[Dict[str, Any]]:
                     why = oracle_wheel(*args)
                     if why:
                         return {"kind": "wheel", "input": args, "why": why}
+            elif mm["where"] in ("file-name", "corpus-file-name") and isinstance(c, str) and split_sdist_name(c):
+                args = list(split_sdist_name(c))
+                if any(x in c for x in (".linux-", ".win-", ".macosx-")):
+                    continue
+                why = oracle_sdist(*args)
+                if why:
+                    return {"kind": "sdist", "input": args, "why": why}
             elif mm["where"] == "page":
                 why = oracle_page(c["html"], tuple(c["interp"]))     # any markup: text belongs to the anchor element it is in
                 if why:
